@@ -355,6 +355,9 @@ func judge(r *report.Run, c *Case, sp *refspec.Spec, spec *common.Spec, what str
 	_ = skipped
 	r.Class(what + ":state-produced")
 	r.Hit("entry:" + what)
+	if c.Config.ForkEpochs[0] == 0 {
+		r.Hit("schedule:altair-at-epoch-0")
+	}
 	for _, k := range kinds {
 		r.Hit("branch:" + k)
 	}
@@ -400,6 +403,16 @@ func genCase(t *rapid.T) *Case {
 	c := &Case{CorruptProofAt: -1}
 	cc := sim.GenConfig(t, 50, true, 1)
 	cc.ForkEpochs = [4]uint64{sim.Far, sim.Far, sim.Far, sim.Far}
+	// the fork schedule is not an input of initialize_beacon_state_from_eth1 (genesis is a phase0 state under
+	// GENESIS_FORK_VERSION whatever follows), so it is varied too: later forks scheduled at epoch 0, 1, ... or never
+	if rapid.IntRange(0, 2).Draw(t, "schedule") == 0 {
+		k := rapid.IntRange(1, 4).Draw(t, "forks_scheduled")
+		e := uint64(0)
+		for i := 0; i < k; i++ {
+			e += rapid.SampledFrom([]uint64{0, 0, 1, 2}).Draw(t, "fork_step")
+			cc.ForkEpochs[i] = e
+		}
+	}
 	c.Config = *cc
 	spe := 8
 	if cc.Family == "mainnet" {
@@ -462,7 +475,7 @@ func TestCheck(t *testing.T) {
 	if r.Replay != "" {
 		return
 	}
-	r.Mandatory("entry:GenesisFromEth1", "entry:KickStartState", "entry:KickStartStateWithSignatures", "branch:new", "branch:badpop", "branch:badkey", "branch:infkey", "branch:topup", "branch:revive", "branch:topup-of-skipped", "branch:not-all-active")
+	r.Mandatory("schedule:altair-at-epoch-0", "entry:GenesisFromEth1", "entry:KickStartState", "entry:KickStartStateWithSignatures", "branch:new", "branch:badpop", "branch:badkey", "branch:infkey", "branch:topup", "branch:revive", "branch:topup-of-skipped", "branch:not-all-active")
 	r.Search(t, "lists", 0, r.N(2400, 40000), func(rt *rapid.T) (any, *report.Failure) {
 		c := genCase(rt)
 		return c, run(r, c)
